@@ -114,10 +114,10 @@ func TestC20Box(t *testing.T) {
 			Seed:      rapid.IntRange(1, 1<<20).Draw(t, "seed"),
 			Receivers: rapid.IntRange(1, 4).Draw(t, "receivers"),
 			Starters:  rapid.IntRange(1, 3).Draw(t, "starters"),
-			Topics:    rapid.SampledFrom([]int{2, 3, 6, 12, 25, 40}).Draw(t, "topics"), // many topics = long mark/sweep passes = wide windows
+			Topics:    rapid.SampledFrom([]int{3, 12, 40, 120, 300}).Draw(t, "topics"), // many topics = long mark/sweep passes = wide windows
 			Limit:     rapid.SampledFrom([]int{2, 4, 6, 50}).Draw(t, "limit"),
 			ExpireMs:  rapid.IntRange(2, 4).Draw(t, "expire"),
-			Millis:    rapid.SampledFrom([]int{60, 120, 250}).Draw(t, "millis"),
+			Millis:    rapid.SampledFrom([]int{120, 250, 400}).Draw(t, "millis"),
 		}
 	}, Sample: func(c c20BoxCase, o *vh.Outcome) interface{} {
 		return map[string]interface{}{"case": c, "info": o.Info}
